@@ -15,6 +15,7 @@ import (
 	"net/url"
 	"runtime/debug"
 	"strconv"
+	"strings"
 	"sync"
 	"testing"
 	"testing/synctest"
@@ -103,7 +104,11 @@ type DNSScript struct {
 	Recovers bool     `json:"recovers,omitempty"`  // with Err: only the first lookup fails, later ones answer Names
 	DelayMs  int      `json:"delay_ms,omitempty"`
 	Hang     bool     `json:"hang,omitempty"` // block until the lookup context ends
+	PerAddr  bool     `json:"per_addr,omitempty"` // the answer also carries a name derived from the address asked for (ptrName)
 }
+
+// ptrName is the scripted resolver's address-specific name.
+func ptrName(addr string) string { return "ptr." + strings.ReplaceAll(addr, ":", "-") + ".example." }
 
 type Request struct {
 	P              ReqParams    `json:"params"`
@@ -253,7 +258,11 @@ func RunRequest(t *testing.T, rq *Request) *ReqOutcome {
 		if s.Err {
 			return nil, errors.New("scripted resolver failure for " + addr)
 		}
-		return append([]string(nil), s.Names...), nil
+		names := append([]string(nil), s.Names...)
+		if s.PerAddr {
+			names = append(names, ptrName(addr))
+		}
+		return names, nil
 	}
 	oldCache := cache.Cache
 	defer func() { cache.Cache = oldCache }()
